@@ -236,7 +236,7 @@ structure Ctx where
   /-- `xsi_cache` content: target qname → classes, in `xsi_cache` order -/
   xsiIndex : List (QN × List ClassId)
   /-- builtin datatype qnames (`DataType.from_qname`) → (python type, wrapper?) -/
-  datatypes : List (QN × PT)
+  datatypes : List (QN × Option PT)
 
 def Ctx.find (Γ : Ctx) (c : ClassId) : Option ClassInfo := Γ.classes.find? (·.id = c)
 
